@@ -51,6 +51,16 @@ type W struct {
 	// Conc: instead of one request after another, this many clients send the request
 	// at the same time; each response must satisfy the model on its own
 	Conc int `json:"concurrent_clients,omitempty"`
+	// Head: the request is sent with method HEAD (Go's mux routes it to the GET route); the connection
+	// is the simulated one, so everything the handler does must reach it exactly as for GET
+	Head bool `json:"head_request,omitempty"`
+}
+
+func (w *W) method() string {
+	if w.Head {
+		return "HEAD"
+	}
+	return "GET"
 }
 
 // effective lists the middlewares (indices into w.MWs, in registration order) that wrap the tested route.
@@ -208,6 +218,7 @@ func gen(r *verifsim.Rng, tier string) (any, hx.Sched) {
 	if r.Intn(5) == 0 {
 		w.Conc = 2 + r.Intn(2)
 	}
+	w.Head = r.Intn(6) == 0
 	w.OnFormat = r.Intn(5) == 0
 	if w.OnFormat {
 		// The request's formatter is detached when the handler returns, so success()/
@@ -699,7 +710,7 @@ func exec(t *testing.T, x any, s hx.Sched) *hx.Outcome {
 						c := hx.NewSimConn()
 						c.Strict = w.Strict
 						c.FailWriteAt = w.FailWrite
-						p := hx.Serve(mux, c, hx.NewRequest("GET", w.routePath(), nil, nil, nil))
+						p := hx.Serve(mux, c, hx.NewRequest(w.method(), w.routePath(), nil, nil, nil))
 						results[ci] = result{-1, c, l, p}
 					})
 				}
@@ -718,7 +729,7 @@ func exec(t *testing.T, x any, s hx.Sched) *hx.Outcome {
 				c := hx.NewSimConn()
 				c.Strict = w.Strict
 				c.FailWriteAt = w.FailWrite
-				p := hx.Serve(mux, c, hx.NewRequest("GET", w.routePath(), nil, nil, nil))
+				p := hx.Serve(mux, c, hx.NewRequest(w.method(), w.routePath(), nil, nil, nil))
 				results = append(results, result{k, c, lg, p})
 			}
 			lg = nil
